@@ -1,0 +1,87 @@
+//go:build verif
+
+// Contracts for the deductive verification machinery kept in /verif (govc).
+// This file contains comments only; it is compiled only under the build tag
+// "verif" and then declares nothing. Each block is keyed by function (and, for
+// loop clauses, by the ordinal of the loop inside that function).
+package template
+
+// ---- spec-level abbreviations -------------------------------------------------
+
+//@ define qual(p *Package) string = p == nil ? "" : (p.Alias != "" ? p.Alias : p.pkg.Name())
+//@ define pathOf(p *Package) string = p == nil ? "" : p.pkg.Path()
+
+// Representation invariant of the import registry (C15, C01 item 2): imports and
+// importQualifiers are the two directions of one bijection between import paths and
+// qualifiers, and every registered *Package was allocated before "now".
+//@ define RegInv(r *Registry) bool = r.imports != nil && r.importQualifiers != nil && r.imports != r.importQualifiers
+//@    && (forall p string :: p in r.imports ==>
+//@          allocated(r.imports[p]) && pathOf(r.imports[p]) == p
+//@          && (qual(r.imports[p]) in r.importQualifiers) && r.importQualifiers[qual(r.imports[p])] == r.imports[p])
+//@    && (forall q string :: q in r.importQualifiers ==>
+//@          allocated(r.importQualifiers[q]) && qual(r.importQualifiers[q]) == q
+//@          && (pathOf(r.importQualifiers[q]) in r.imports) && r.imports[pathOf(r.importQualifiers[q])] == r.importQualifiers[q])
+
+// ---- Package ------------------------------------------------------------------
+
+//@ func (*Package).Qualifier props=C15,C01
+//@   safety nil-receiver
+//@   ensures result == qual(p)
+//@   assigns nothing
+
+//@ func (*Package).Path props=C15,C01
+//@   safety nil-receiver
+//@   ensures result == pathOf(p)
+//@   assigns nothing
+
+//@ func (*Package).ImportStatement props=C15,C01
+//@   ensures p.Alias == "" ==> result == concat("\"", concat(pathOf(p), "\""))
+//@   ensures p.Alias != "" ==> result == concat(p.Alias, concat(" \"", concat(pathOf(p), "\"")))
+//@   assigns nothing
+
+// ---- MethodScope: names ---------------------------------------------------------
+
+//@ func (*MethodScope).NameExists props=C15,C14
+//@   ensures result == (name in m.visibleNames)
+//@   assigns nothing
+
+//@ func (*MethodScope).AddName props=C15,C14
+//@   requires m.visibleNames != nil
+//@   ensures forall n string :: (n in m.visibleNames) <==> (old(n in m.visibleNames) || n == name)
+//@   assigns m.visibleNames
+
+// "suggestion without allocation has no effect on later results": assigns nothing.
+//@ func (*MethodScope).SuggestName props=C15,C14
+//@   ensures !(result in m.visibleNames)
+//@   assigns nothing
+
+// "every name returned by the allocation call is different from every name visible or
+// allocated before in that scope" and "a name reported as existing stays existing".
+//@ func (*MethodScope).AllocateName props=C15,C14
+//@   requires m.visibleNames != nil
+//@   ensures !old(result in m.visibleNames)
+//@   ensures forall n string :: (n in m.visibleNames) <==> (old(n in m.visibleNames) || n == result)
+//@   assigns m.visibleNames
+
+// ---- Registry -----------------------------------------------------------------
+
+//@ func NewRegistry props=C15,C01
+//@   ensures err == nil && result != nil && RegInv(result)
+//@   ensures forall p string :: !(p in result.imports)
+//@   ensures result.dstPkgPath == dstPkgPath && result.inPackage == inPackage && result.srcPkg == srcPkg
+//@   assigns fresh
+
+//@ func (*Registry).addImport props=C15,C01
+//@   requires RegInv(r)
+//@   requires pkg != nil
+//@   let P = pkg.Path()
+//@   ensures#inv RegInv(r)
+//@   ensures#inpkg (P == r.dstPkgPath && r.inPackage) ==> result == nil && unchanged(r.imports) && unchanged(r.importQualifiers)
+//@   ensures#registered !(P == r.dstPkgPath && r.inPackage) ==> result != nil && pathOf(result) == P && (P in r.imports) && r.imports[P] == result
+//@   ensures#samepath old(P in r.imports) && !(P == r.dstPkgPath && r.inPackage) ==> result == old(r.imports[P]) && unchanged(r.imports) && unchanged(r.importQualifiers)
+//@   ensures#freshqual result != nil && !old(P in r.imports) ==> (forall q string :: q == qual(result) ==> !old(q in r.importQualifiers))
+//@   ensures#others forall p string :: p != P ==> ((p in r.imports) <==> old(p in r.imports)) && r.imports[p] == old(r.imports[p])
+//@   ensures#aliasframe forall x *Package :: old(allocated(x)) ==> x.Alias == old(x.Alias) && x.pkg == old(x.pkg)
+//@   ensures#fields r.dstPkgPath == old(r.dstPkgPath) && r.inPackage == old(r.inPackage) && r.imports == old(r.imports) && r.importQualifiers == old(r.importQualifiers)
+//@   loop 0: invariant aliasSuggestion == originalQualifier || aliasSuggestion != ""
+//@   assigns r.imports, r.importQualifiers, fresh
